@@ -27,6 +27,10 @@ static DIAG_FD: std::sync::atomic::AtomicI32 = std::sync::atomic::AtomicI32::new
 
 pub fn silence_crate_stderr() {
     use std::os::fd::AsRawFd;
+    // ZIPMC_KEEP_STDERR=1: leave the crate's and the runtime's messages visible (diagnosing an abort in a replay)
+    if std::env::var_os("ZIPMC_KEEP_STDERR").is_some() {
+        return;
+    }
     unsafe {
         let saved = dup(2);
         if saved < 0 {
